@@ -108,13 +108,16 @@ def build(spec, replace_disabled_target=None):
     for i, nm in enumerate(names):
         lim = spec["limits"][i] if spec.get("limits") else None
         vary.append(Vary(nm, kd, limits=lim, step=spec["steps"][i], weight=spec["vweights"][i],
-                         max_step=spec["max_step"][i] if spec.get("max_step") else None, tag=f"v{i}"))
+                         max_step=spec["max_step"][i] if spec.get("max_step") else None, tag=f"v{i}",
+                         active=i not in spec.get("inactive_at_construction_vary", ())))
     targets = []
     for i in range(m):
         val = spec["targets"][i]
         if i in repl:
             val = repl[i][2]
         targets.append(act.target(i, val, tol=spec["tols"][i], weight=spec["tweights"][i], tag=f"t{i}"))
+        if i in spec.get("inactive_at_construction_targets", ()):
+            targets[-1].active = False
     opt = Optimize(vary=vary, targets=targets, n_steps_max=spec.get("n_steps_max", 20),
                    restore_if_fail=spec.get("restore_if_fail", True), show_call_counter=False, verbose=0,
                    check_limits=spec.get("check_limits", True))
